@@ -212,6 +212,8 @@ pub struct MObj {
     pub fin_script: u8,
     pub drop_script: u8,
     pub limbo: bool,
+    /// Existed when a panic was caught: its count may legitimately stay too high (a leak)
+    pub leaky: bool,
     pub buffered: bool,
     pub side: usize,
     pub map_addr: usize,
@@ -239,6 +241,7 @@ impl MObj {
             fin_script: 0,
             drop_script: 0,
             limbo: false,
+            leaky: false,
             buffered: false,
             side: 0,
             map_addr: 0,
@@ -593,7 +596,14 @@ const CALLBACK_BUDGET: u32 = 20_000;
 pub fn viol(prop: &'static str, pred: &'static str, msg: String) {
     if let Some(c) = try_ctx() {
         let _p = alloc::pause();
-        c.violations.borrow_mut().push(Violation { prop, pred, msg });
+        // Whatever breaks after a callback panic was caught (or while one unwinds) is a containment failure
+        let after_fault = c.fault_fired.get() || c.model.try_borrow().map_or(false, |m| m.faults > 0);
+        if after_fault && prop != "MACHINERY" && prop != "C07" {
+            let msg = format!("after a caught callback panic: [{} {}] {}", prop, pred, msg);
+            c.violations.borrow_mut().push(Violation { prop: "C07", pred, msg });
+        } else {
+            c.violations.borrow_mut().push(Violation { prop, pred, msg });
+        }
     }
 }
 
